@@ -12,7 +12,7 @@ set_option linter.unusedVariables false
 set_option linter.unusedSimpArgs false
 set_option maxHeartbeats 1000000
 open Lex PM Ast TP TP2 TS TQ
-namespace TD
+namespace TDM
 variable {d : Gen.D} {ch : Expr → Bool}
 
 /-! ### records from the `Bool` fragment -/
@@ -207,4 +207,4 @@ theorem update_ok (w : Option (List WithTable)) (t : TableName) (p : String × E
   unfold pUpdate
   simp only [matchKw, k1, if_true, h1, h2, h3]
 
-end TD
+end TDM
